@@ -13,7 +13,7 @@ EXTENDS MonCommon
 
 MonInit == [ sid |-> "", qos |-> "", writes |-> <<>>, recs |-> <<>>, acks |-> <<>>, downs |-> <<>>, hookB |-> <<>>,
              resumes |-> <<>>, resumeOk |-> 0, closeReq |-> <<>>, closeRet |-> "none", upClosedErr |-> FALSE, streamClosedErr |-> FALSE,
-             quiesced |-> FALSE, watchdog |-> 0, wrongIdResume |-> 0, nUp |-> 0 ]
+             quiesced |-> FALSE, watchdog |-> 0, wrongIdResume |-> 0, nUp |-> 0, removedUnacked |-> {}, removes |-> 0 ]
 MonReset(e) == MonInit
 
 GroupsOf(gs) == { <<gs[k].id, gs[k].pts>> : k \in 1..Len(gs) }
@@ -39,6 +39,10 @@ MonStep(m, e) ==
       [] e.ev = "BRecvReq" /\ e.kind = "UpstreamCloseRequest" /\ e.sid = m.sid ->
             [m EXCEPT !.closeReq = Append(@, [final |-> e.final, total |-> e.total, c |-> e.c])]
       [] e.ev = "UpClosed" /\ e.sid = m.sid -> [m EXCEPT !.upClosedErr = @ \/ e.err # ""]
+      [] e.ev = "StoreOp" /\ e.op = "Remove" /\ e.sid = m.sid /\ e.ok ->
+            \* code-level StoredUntilAcked: a chunk leaves the sent storage only after a result for it was sent by the broker
+            [m EXCEPT !.removes = @ + 1,
+                      !.removedUnacked = IF \E a \in RangeS(m.acks) : a.seq = e.seq THEN @ ELSE @ \cup {e.seq}]
       [] e.ev = "Watchdog" -> [m EXCEPT !.watchdog = @ + 1]
       [] e.ev = "Quiesced" -> [m EXCEPT !.quiesced = TRUE]
       [] OTHER -> m
@@ -83,6 +87,7 @@ Clause(name, b) == IF b THEN {name} ELSE {}
 MonVerdict(m) ==
     IF m.sid = "" THEN {}
     ELSE Clause("SeqReuse", SeqReuse(m)) \cup Clause("ResumeWithForeignId", m.wrongIdResume > 0 /\ m.nUp = 1)
+         \cup Clause("RemovedUnacked", m.qos = "reliable" /\ m.removedUnacked # {})
          \cup Clause("PointUnderTwoSeqs", PointUnderTwoSeqs(m)) \cup Clause("PayloadAltered", PayloadAlteredSafe(m))
          \cup (IF ~Healthy(m) THEN {}
                ELSE Clause("Lost", Lost(m)) \cup Clause("PayloadAltered", PayloadAltered(m)) \cup Clause("SeqChanged", SeqChanged(m))
@@ -91,5 +96,5 @@ MonVerdict(m) ==
 MonStats(m) == [ healthy |-> IF Healthy(m) THEN 1 ELSE 0, writes |-> Len(m.writes), receptions |-> Len(m.recs),
                  resumes |-> Len(m.resumes), resumed |-> m.resumeOk, cuts |-> Cardinality(DeadIncs(m)),
                  retransmissions |-> Cardinality({ r \in RangeS(m.recs) : \E r2 \in RangeS(m.recs) : r2.seq = r.seq /\ r2.c < r.c }),
-                 escaped |-> IF m.upClosedErr \/ m.streamClosedErr THEN 1 ELSE 0, watchdog |-> m.watchdog ]
+                 storeRemoves |-> m.removes, escaped |-> IF m.upClosedErr \/ m.streamClosedErr THEN 1 ELSE 0, watchdog |-> m.watchdog ]
 =============================================================================
